@@ -720,8 +720,8 @@ theorem pres_connCreate (s : Sys) (n b : String) (v : Bool) (c : Comp) (h : Comp
       · simpa [hk] using h k
     | _ => exact h
 
-theorem pres_connUpdate (s : Sys) (n b : String) (v : Bool) (c : Comp) (h : CompSync c s.l s.r) :
-    CompSync c (step s (.connUpdate n b v)).l (step s (.connUpdate n b v)).r := by
+theorem pres_connUpdate (s : Sys) (n bn b : String) (v : Bool) (c : Comp) (h : CompSync c s.l s.r) :
+    CompSync c (step s (.connUpdate n bn b v)).l (step s (.connUpdate n bn b v)).r := by
   simp only [step, stepL, emits]
   by_cases hx : ((s.l.connectors.get n).isNone || !v) = true
   · simp only [hx, ↓reduceIte, applyAll_nil]; exact h
@@ -936,7 +936,7 @@ theorem step_preserves (s : Sys) (op : Op) (c : Comp) (hk : knownCell op.kind c 
   | rebalanceApi ms => exact pres_rebalanceApi s ms c (by rintro rfl; simp [knownCell, Op.kind] at hk) h
   | drain id ms => exact pres_drain s id ms c (by cases c <;> simp [knownCell, Op.kind] at hk ⊢) h
   | connCreate n b v => exact pres_connCreate s n b v c h
-  | connUpdate n b v => exact pres_connUpdate s n b v c h
+  | connUpdate n bn b v => exact pres_connUpdate s n bn b v c h
   | connDelete n => exact pres_connDelete s n c h
   | tickSync now => exact pres_tickSync s now c h
   | tickSweep now => exact pres_tickSweep s now c h
